@@ -1,6 +1,6 @@
 (* Dispatcher used by both evaluation routes (vm_compute in cases.v, extracted runner). *)
 From Coq Require Import String List Bool.
-From HV Require Import Base.Sexp Model.DepKeys Model.Merge Model.Validate Model.Ref Model.Completion Model.BodyQueries Model.Signature Model.Hover Model.Collect Model.Snippet Model.Json Model.Origins Model.OriginsBody Model.ValueTargets Model.TargetsBody Model.ValueTokens Model.Links Model.ValueHover Model.FuncCands Model.HookCands Model.TypeHover.
+From HV Require Import Base.Sexp Model.DepKeys Model.Merge Model.Validate Model.Ref Model.Completion Model.BodyQueries Model.Signature Model.Hover Model.Collect Model.Snippet Model.Json Model.Origins Model.OriginsBody Model.ValueTargets Model.TargetsBody Model.ValueTokens Model.Links Model.ValueHover Model.FuncCands Model.HookCands Model.TypeHover Model.ValueCands.
 Import ListNotations.
 Open Scope string_scope.
 
@@ -26,7 +26,8 @@ Definition run_kind (kind : string) (args : list sexp) : option sexp :=
        match run_value_hover kind args with Some r => Some r | None =>
        match run_func_cands kind args with Some r => Some r | None =>
        match run_hook_cands kind args with Some r => Some r | None =>
-       match run_type_hover kind args with Some r => Some r | None => run_ref kind args end end end end end end end end end end end end.
+       match run_type_hover kind args with Some r => Some r | None =>
+       match run_value_cands kind args with Some r => Some r | None => run_ref kind args end end end end end end end end end end end end end.
 
 (* (case <id> (<kind> args...) <observed>)  ->  (<id> ok) | (<id> diff <model-output>) | (<id> badinput) *)
 Definition run_case (c : sexp) : sexp :=
